@@ -75,10 +75,18 @@ def fmtVal (prec v : Nat) : String :=
 
 def runC04 (line : String) : String :=
   match toks line with
-  | "D" :: name :: ch :: prec :: w :: h :: specs =>
+  | "D" :: name :: ch :: prec :: w :: h :: specs0 =>
     match findFmt name, parseChannels ch, nat? prec, nat? w, nat? h with
     | some fm, some chans, some prec, some w, some h =>
-      if prec > 2 ∨ w == 0 ∨ h == 0 ∨ w * h > 1048576 then "bad-case" else
+      -- optional `rect:<ox>:<oy>:<rw>:<rh>` tokens: the harness takes those pixels from a rect decode; the ideal
+      -- value of a pixel does not depend on how it was asked for, so the model's answer is that of the plain case
+      let rects := specs0.filter (·.startsWith "rect:")
+      let specs := specs0.filter (fun s => !s.startsWith "rect:")
+      let rectOk := rects.all fun r =>
+        match ((r.drop 5).toString.splitOn ":").map nat? with
+        | [some ox, some oy, some rw, some rh] => rw != 0 && rh != 0 && ox + rw ≤ w && oy + rh ≤ h
+        | _ => false
+      if prec > 2 ∨ w == 0 ∨ h == 0 ∨ w * h > 1048576 ∨ !rectOk then "bad-case" else
       let surf : Option Surface :=
         match fm.planar, specs with
         | none, [s1] => do
@@ -97,6 +105,21 @@ def runC04 (line : String) : String :=
           (convertChannels fm.native chans prec p).foldl (fun acc v => acc ++ " " ++ fmtVal prec v) acc)
           "ok"
     | _, _, _, _, _ => "bad-case"
+  | ["V", name, ch, prec, sw, sh, ox, oy, rw, rh, spec] =>
+    -- a window of a surface of any size (more than 2^32 pixels included); one-pixel-per-unit formats
+    match findFmt name, parseChannels ch, (([prec, sw, sh, ox, oy, rw, rh].map nat?).mapM id) with
+    | some fm, some chans, some [prec, sw, sh, ox, oy, rw, rh] =>
+      if prec > 2 ∨ fm.planar.isSome ∨ fm.pxPerUnit != 1 ∨ sw == 0 ∨ sh == 0 ∨ sw ≥ 2 ^ 32 ∨ sh ≥ 2 ^ 32
+          ∨ rw == 0 ∨ rh == 0 ∨ rw * rh > 4096 ∨ ox + rw > sw ∨ oy + rh > sh
+          ∨ sw * sh * fm.unitBytes > 2 ^ 63 - 1 then "bad-case" else
+      match parseSpec spec (8 * fm.unitBytes) with
+      | none => "bad-case"
+      | some u =>
+        let s : Surface := { w := sw, h := sh, unit := u }
+        (List.range (rw * rh)).foldl (fun acc i =>
+          (convertChannels fm.native chans prec (specPixel fm prec s (ox + i % rw) (oy + i / rw))).foldl
+            (fun acc v => acc ++ " " ++ fmtVal prec v) acc) "ok"
+    | _, _, _ => "bad-case"
   | _ => "bad-case"
 
 end Dds.Drv.C04
